@@ -211,7 +211,9 @@ def impl_timescale(case):
     import tsdate.rescaling as R
     t, lk, p, c = _np_case(case)
     try:
-        o, a = R.mutational_timescale(t, lk, np.array(case["fixed"], dtype=bool), p, c, int(case["max_intervals"]))
+        with warnings.catch_warnings():
+            warnings.simplefilter("ignore")
+            o, a = R.mutational_timescale(t, lk, np.array(case["fixed"], dtype=bool), p, c, int(case["max_intervals"]))
     except AssertionError as e:
         return "assert:" + str(e)[:60]
     except Exception as e:  # noqa
@@ -376,3 +378,230 @@ def ep_rescale_record(ep, **kw):
         except Exception as e:  # noqa
             st = _exc(e)
     return st, rec.calls
+
+
+# ------------------------------------------------------------------ piecewise_scale_posterior
+def posterior_case(rng):
+    """synthetic gamma posteriors (natural parameters alpha = shape - 1, beta = rate) and breaks"""
+    b = breaks_case(rng)
+    n = rng.randint(1, 8)
+    posts, fixed = [], []
+    top = b["ob"][-1] if b["ob"][-1] > 0 else 1.0
+    for _ in range(n):
+        shape = rng.choice([0.5, 1.0, 2.0, 7.5, 40.0, 300.0, 1000.0, 10.0 ** rng.uniform(-0.3, 3)])
+        mean = rng.choice([rng.random() * top * 1.2, rng.choice(b["ob"]) or top * 0.5, top * rng.random() ** 3])
+        mean = max(mean, 1e-9 * top)
+        posts.append([shape - 1.0, shape / mean])
+        fixed.append(rng.random() < 0.25)
+    if rng.random() < 0.03:
+        posts[0][1] = -posts[0][1]                     # the code's own positivity assertion
+        fixed[0] = False
+    return {"kind": "post/" + b["kind"], "posts": posts, "fixed": fixed, "ob": b["ob"], "rb": b["rb"],
+            "qw": rng.choice([0.5, 0.5, 0.1, 0.9, 0.25]), "ms": rng.choice([1000.0, 1000.0, 20.0, 5.0, 2.0])}
+
+
+def run_posterior(case, compiled=False):
+    """run the Python body of piecewise_scale_posterior with the two external functions wrapped
+    -> (result | 'assert:..' | 'raise:..', gtab, ftab); with compiled=True the jitted function
+    (no tables)"""
+    import tsdate.rescaling as R
+    f = R.piecewise_scale_posterior
+    args = (np.array(case["posts"], dtype=np.float64).reshape(-1, 2), np.array(case["fixed"], dtype=bool),
+            np.array(case["ob"], dtype=np.float64), np.array(case["rb"], dtype=np.float64),
+            float(case["qw"]), float(case["ms"]))
+    gtab, ftab = [], []
+    if compiled:
+        fn = f
+    else:
+        fn = getattr(f, "py_func", f)
+    og, of = R.gammainc_inv, R.approximate_gamma_iqr
+
+    def g(a, q):
+        v = og(a, q)
+        gtab.append((float(a), float(q), float(v)))
+        return v
+
+    def h(q1, q2, x1, x2, ms):
+        try:
+            r = of(q1, q2, x1, x2, ms)
+        except Exception:  # noqa
+            ftab.append((float(q1), float(q2), float(x1), float(x2), float(ms), None))
+            raise
+        ftab.append((float(q1), float(q2), float(x1), float(x2), float(ms), (float(r[0]), float(r[1]))))
+        return r
+    if not compiled:
+        R.gammainc_inv, R.approximate_gamma_iqr = g, h
+    try:
+        with warnings.catch_warnings():
+            warnings.simplefilter("ignore")
+            out = fn(*args)
+        res = [None if (math.isnan(a) and math.isnan(b)) else (float(a), float(b)) for a, b in out]
+    except AssertionError as e:
+        res = "assert:" + str(e)[:60]
+    except Exception as e:  # noqa
+        res = _exc(e)
+    finally:
+        R.gammainc_inv, R.approximate_gamma_iqr = og, of
+    return res, gtab, ftab
+
+
+POST_HDR = """
+Fixpoint look2 (tb : list (float * float * float)) (a q : float) : float :=
+  match tb with
+  | [] => nan
+  | (x, y, v) :: r => if PrimFloat.eqb x a && PrimFloat.eqb y q then v else look2 r a q
+  end.
+Fixpoint look5 (tb : list (float * float * float * float * float * option (float * float)))
+    (q1 q2 x1 x2 ms : float) : option (float * float) :=
+  match tb with
+  | [] => None
+  | (a, b, c, d, e, v) :: r =>
+      if PrimFloat.eqb a q1 && PrimFloat.eqb b q2 && PrimFloat.eqb c x1 && PrimFloat.eqb d x2
+         && PrimFloat.eqb e ms then v else look5 r q1 q2 x1 x2 ms
+  end.
+Definition runp gt ft posts fixed ob rb qw ms :=
+  piecewise_scale_posterior FNum (look2 gt) (look5 ft) posts fixed ob rb qw ms.
+"""
+
+
+def model_posterior(ctx, cases, tabs):
+    """Rescale.piecewise_scale_posterior on PrimFloat with the recorded external calls as tables"""
+    terms = []
+    for c, (gt, ft) in zip(cases, tabs):
+        terms.append("runp %s %s %s %s %s %s %s %s" % (
+            clist(gt, lambda r: "(%s, %s, %s)" % (cfloat(r[0]), cfloat(r[1]), cfloat(r[2]))),
+            clist(ft, lambda r: "(%s, %s, %s, %s, %s, %s)" % (
+                cfloat(r[0]), cfloat(r[1]), cfloat(r[2]), cfloat(r[3]), cfloat(r[4]),
+                copt(r[5], lambda ab: cpair(cfloat(ab[0]), cfloat(ab[1]))))),
+            clist(c["posts"], lambda r: cpair(cfloat(r[0]), cfloat(r[1]))), clist(c["fixed"], cbool),
+            c_floats(c["ob"]), c_floats(c["rb"]), cfloat(c["qw"]), cfloat(c["ms"])))
+    out = []
+    for i in range(0, len(terms), 120):
+        body = POST_HDR + "Definition cases := %s.\nEval vm_compute in cases.\n" % clist(terms[i:i + 120])
+        out += ctx.coq_eval(body, requires=REQ, tag="post")[0]
+    conv = []
+    for r in out:
+        if r is None:
+            conv.append(None)
+        else:
+            conv.append([None if x is None else (float(x[1][0]), float(x[1][1])) for x in r[1]])
+    return conv
+
+
+def same_posterior(a, b, **kw):
+    """impl result (list of None | (alpha, beta), or an error string) vs model (None = rejected)"""
+    if isinstance(a, str):
+        return b is None
+    if b is None or len(a) != len(b):
+        return False
+    for x, y in zip(a, b):
+        if (x is None) != (y is None):
+            return False
+        if x is not None and not (close(x[0], y[0], **kw) and close(x[1], y[1], **kw)):
+            return False
+    return True
+
+
+# ------------------------------------------------------------------ the glue of ExpectationPropagation.rescale
+def model_ep_breaks(ctx, items):
+    """items: dicts with means, fixed, liks, parent, child, cpss -> (ob', rb, x') or None"""
+    terms = []
+    for it in items:
+        terms.append("ep_rescale_breaks FNum %s %s %s %s %s" % (
+            c_floats(it["means"]), clist(it["fixed"], cbool), c_liks(it["liks"]), c_edges(it),
+            clist(it["cpss"], lambda cps: clist(cps, cnat))))
+    out = []
+    for i in range(0, len(terms), 60):
+        body = "Definition cases := %s.\nEval vm_compute in cases.\n" % clist(terms[i:i + 60])
+        out += ctx.coq_eval(body, requires=REQ, tag="epbreaks")[0]
+    conv = []
+    for r in out:
+        if r is None:
+            conv.append(None)
+        else:
+            ob, rb, x = r[1]
+            conv.append(([float(v) for v in ob], [float(v) for v in rb], [float(v) for v in x]))
+    return conv
+
+
+def changepoints_of_call(args):
+    """the changepoints _fixed_changepoints returned inside one recorded mutational_timescale call"""
+    times, liks, fixed, parent, child, max_intervals = args
+    case = {"t": [float(x) for x in times], "liks": [[float(a), float(b)] for a, b in liks],
+            "parent": [int(x) for x in parent], "child": [int(x) for x in child]}
+    area = impl_area(case)
+    if isinstance(area, str):
+        return case, None, None
+    return case, area, impl_changepoints(area, max_intervals)
+
+
+# ------------------------------------------------------------------ rescale_tree_sequence (C37)
+class ModRecorder:
+    """wraps functions that rescale_tree_sequence looks up in tsdate.rescaling"""
+    NAMES = ["count_mutations", "mutational_timescale", "piecewise_scale_point_estimate"]
+
+    def __init__(self):
+        import tsdate.rescaling as R
+        self.R = R
+        self.calls = []
+        self.orig = {}
+
+    def __enter__(self):
+        for nm in self.NAMES:
+            f = getattr(self.R, nm)
+            self.orig[nm] = f
+
+            def g(*a, _f=f, _nm=nm, **kw):
+                args = [np.array(x).copy() if isinstance(x, np.ndarray) else x for x in a]
+                try:
+                    r = _f(*a, **kw)
+                except Exception as e:  # noqa
+                    self.calls.append((_nm, args, e))
+                    raise
+                rr = tuple(np.array(x).copy() for x in r) if isinstance(r, tuple) else np.array(r).copy()
+                self.calls.append((_nm, args, rr))
+                return r
+            setattr(self.R, nm, g)
+        return self
+
+    def __exit__(self, *exc):
+        for nm, f in self.orig.items():
+            setattr(self.R, nm, f)
+        return False
+
+
+def run_rescale_ts(ts, mu, **kw):
+    """-> (status, output ts or None, recorded calls)"""
+    import tsdate.rescaling as R
+    with ModRecorder() as rec:
+        try:
+            with warnings.catch_warnings():
+                warnings.simplefilter("ignore")
+                out = R.rescale_tree_sequence(ts, mu, **kw)
+            st = "ok"
+        except AssertionError as e:
+            out, st = None, "raise:AssertionError:" + str(e)[:60]
+        except Exception as e:  # noqa
+            out, st = None, _exc(e)
+    return st, out, rec.calls
+
+
+def model_rescale_ts(ctx, items):
+    """items: dicts with t, fixed, liks, parent, child, cpss, muts [(edge or None, node)]"""
+    terms = []
+    for it in items:
+        terms.append("rescale_ts_times FNum %s %s %s %s %s %s" % (
+            c_floats(it["t"]), clist(it["fixed"], cbool), c_liks(it["liks"]), c_edges(it),
+            clist(it["cpss"], lambda cps: clist(cps, cnat)),
+            clist(it["muts"], lambda m: cpair(copt(m[0], cnat), cnat(m[1])))))
+    out = []
+    for i in range(0, len(terms), 60):
+        body = "Definition cases := %s.\nEval vm_compute in cases.\n" % clist(terms[i:i + 60])
+        out += ctx.coq_eval(body, requires=REQ, tag="rescalets")[0]
+    conv = []
+    for r in out:
+        if r is None:
+            conv.append(None)
+        else:
+            conv.append(([float(v) for v in r[1][0]], [float(v) for v in r[1][1]]))
+    return conv
